@@ -188,6 +188,8 @@ class C02(C01):
         "HappyModel.C01.process_trace_satisfies_c02_spec_delay_wait",
         "HappyModel.C01.hook_clauses_silent_on_model",
         "HappyModel.C01.hook_clauses_silent_on_program",
+        "HappyModel.C01.process_trace_satisfies_c02_spec",
+        "HappyModel.C01.program_trace_satisfies_c02_spec",
         "HappyModel.C01.delivered_sorted",
         "HappyModel.C01.at_most_once",
         "HappyModel.C01.pop_verdict",
@@ -203,8 +205,9 @@ class C02(C01):
             "initial state, end time and number of iterations; the delay and wait monitors provably read no other line (`*_filter`). "
             "Each of these signatures is raised by its monitor only (the remaining fold of the judge no longer checks them). Not "
             "linked: the clauses that need the judge's declarative resolution of futures (`settle`: future/resumed-before-resolved, "
-            "resumed-with-wrong-value, resumed-at-wrong-instant, value-raised-instead-of-sent, resolved-but-never-resumed); one "
-            "line-by-line ghost trace carrying all line kinds at once is not defined (the two views are separate projections)",
+            "resumed-with-wrong-value, resumed-at-wrong-instant, value-raised-instead-of-sent, resolved-but-never-resumed); the "
+            "combined trace `c02TraceOf` (R / S / K / h / F / H / c / y / w lines interleaved as written) is accepted by the three "
+            "monitors (`process_trace_satisfies_c02_spec`); it does not carry the n / a / l / r lines of the future layer",
         "HappyModel.C01.one_pending_continuation":
             "the invariant is 'at most one pending resumption per process', not 'exactly one': the model (like the "
             "harness) lets a second process park on a future that already has one and lets a slot be rebound, where "
